@@ -11,7 +11,8 @@ Status summary (see `C17_full` at the end). The LIVE model is the repaired worke
 (`cfg.fixed = true`, hooks/C17-fix.patch; the order-fact tie accepts only that shape):
   proved, all schedules      : pipe_fifo, pipe_complete, pipe_writer_never_waits_on_reader,
                                bf_pipe_refines, bf_counter_inv, bf_no_early_exit, bf_exactly_once,
-                               bf_error_cancels, bf_return_joins_workers, bf_live_ctx_error_recorded,
+                               bf_error_cancels, bf_return_joins_workers, bf_return_no_goroutine_left,
+                               bf_live_ctx_error_recorded,
                                bf_measure (every step decreases the bound), bf_terminates,
                                limit_skip_window, range_partition_exact
   about the OLD protocol     : bf_terminates_refuted_old (witness of finding F14: the hang that was
@@ -295,6 +296,24 @@ theorem bf_return_joins_workers (cfg : Cfg) (s : BF) (h : BF.Reach cfg s) :
                   exact ih z hc
     | cancel => simp only [BF.step] at hs; split at hs <;> try cases hs
                 exact ih z hc
+
+/-- No goroutine is left behind by the protocol: when BreadthFirst has returned, every worker has
+returned (`bf_return_joins_workers`) and the pipe goroutine has either returned already or its
+`ctx.Done()` case is enabled — it needs no further input from anyone to exit, and taking that step
+puts it in its final state. (The Go runtime actually scheduling that step is observed by the harness:
+goroutine count settles, class `goroutine-leak` otherwise.) -/
+theorem bf_return_no_goroutine_left (cfg : Cfg) (s : BF) (h : BF.Reach cfg s) (z : Bool) (hc : s.coord = .ret z) :
+    s.ws.all WState.isExited = true ∧
+    (s.sh.pipe.phase = .done ∨
+      ∃ s', s.step cfg .pipeExit = some s' ∧ s'.sh.pipe.phase = .done ∧ s'.ws = s.ws ∧ s'.coord = s.coord) := by
+  refine ⟨bf_return_joins_workers cfg s h z hc, ?_⟩
+  have hcan : s.sh.cancelled = true := (reach_inv2 h).jn (by rw [hc]; rfl)
+  rcases (reach_inv2 h).ph with hp | ⟨hp, _⟩
+  · right
+    have hcan' : s.sh.pipe.cancelled = true := hcan
+    refine ⟨{ s with sh := s.sh.setPipe { s.sh.pipe with phase := .done } }, ?_, rfl, rfl, rfl⟩
+    simp [BF.step, Pipe.step, hcan', hp]
+  · exact Or.inl hp
 
 /-! ## (c) sequential helpers -/
 
